@@ -1,7 +1,110 @@
-"""Kani harness runner: see below (filled in with the memfs_file unit)."""
+"""Kani harness runner.  Harness modules live in units/<unit>.kani.rs and are appended (under cfg(kani)) to a
+scratch copy of /repo on every run -- never to /repo itself.  Only loop-free harnesses over full-width symbolic
+integers are labelled `complete`; everything else must carry completeness=bounded and is never counted as proved."""
+import os
+import re
+import shutil
+import subprocess
+import tempfile
+import time
+
+HERE = os.path.dirname(os.path.abspath(__file__))
+VERIF = os.path.dirname(HERE)
+
+
+def parse_attrs(s):
+    attrs = {}
+    for m in re.finditer(r'(\w+)=(?:"([^"]*)"|(\S+))', s):
+        attrs[m.group(1)] = m.group(2) if m.group(2) is not None else m.group(3)
+    return attrs
+
+
+def load():
+    res = []
+    d = os.path.join(VERIF, 'units')
+    for f in sorted(os.listdir(d)):
+        if not f.endswith('.kani.rs'):
+            continue
+        text = open(os.path.join(d, f), encoding='utf-8').read()
+        inject = None
+        hs = []
+        for l in text.split('\n'):
+            if l.startswith('//@ kani'):
+                inject = parse_attrs(l)['inject']
+            elif l.startswith('//@ harness'):
+                nm = l.split()[2]
+                a = parse_attrs(l)
+                hs.append({'name': nm, 'props': a.get('props', '').split(','), 'completeness': a.get('completeness', 'bounded'),
+                           'bound': a.get('note', ''), 'unit': f[:-8], 'items': a.get('items', '').split(',') if a.get('items') else None,
+                           'replay': a.get('replay')})
+        res.append({'unit': f[:-8], 'inject': inject, 'text': text, 'harnesses': hs})
+    return res
+
+
 def harness_units(pid):
-    return []
+    return [u for u in load() if any(pid in h['props'] for h in u['harnesses'])]
+
+
 def all_harnesses():
-    return []
-def run_units(kunits, pid, repo, only_failed_units=None):
-    return []
+    return [h for u in load() for h in u['harnesses']]
+
+
+def run_units(kunits, pid, repo, only_failed_units=None, timeout=1500):
+    results = []
+    scratch = tempfile.mkdtemp(prefix='rivia-kani-')
+    try:
+        work = os.path.join(scratch, 'repo')
+        shutil.copytree(repo, work, ignore=shutil.ignore_patterns('target', '.git'))
+        os.makedirs(os.path.join(work, '.cargo'), exist_ok=True)
+        open(os.path.join(work, '.cargo', 'config.toml'), 'w').write('[net]\noffline = true\n')
+        hs = []
+        for u in kunits:
+            p = os.path.join(work, u['inject'])
+            open(p, 'a', encoding='utf-8').write('\n' + u['text'])
+            hs += [h for h in u['harnesses'] if pid is None or pid in h['props']]
+        env = dict(os.environ, CARGO_NET_OFFLINE='true', CARGO_TARGET_DIR=os.path.join(scratch, 'target'))
+        cmd = ['cargo', 'kani', '-Z', 'function-contracts', '-Z', 'concrete-playback', '--concrete-playback=print',
+               '--output-format', 'terse']
+        for h in hs:
+            cmd += ['--harness', h['name']]
+        t0 = time.time()
+        try:
+            p = subprocess.run(cmd, cwd=work, env=env, capture_output=True, text=True, timeout=timeout)
+            out = p.stdout + '\n' + p.stderr
+        except subprocess.TimeoutExpired as e:
+            out = 'TIMEOUT after %ds' % timeout
+        wall = time.time() - t0
+        shown = 'cd <scratch copy of /repo with units/*.kani.rs appended> && CARGO_NET_OFFLINE=true ' + ' '.join(cmd)
+        for h in hs:
+            r = {k: v for k, v in h.items() if v is not None}
+            r['harness'] = h['name']
+            r['cmd'] = shown
+            r['wall_s'] = wall / max(1, len(hs))
+            # locate this harness' section
+            m = re.search(r'Checking harness [\w:]*' + re.escape(h['name']) + r'\b(.*?)(?=Checking harness |Manual Harness Summary|Complete - |\Z)', out, re.S)
+            sec = m.group(1) if m else ''
+            if 'VERIFICATION:- SUCCESSFUL' in sec:
+                r['status'] = 'ok'
+            elif 'VERIFICATION:- FAILED' in sec:
+                r['status'] = 'failed'
+                fc = re.findall(r'Failed Checks: ([^\n]*)', sec)
+                r['failed_checks'] = '; '.join(fc[:6])
+                cm = re.search(r'Concrete playback unit test.*?```\s*(.*?)```', sec, re.S)
+                r['cex'] = cm.group(1).strip() if cm else None
+                r['output'] = sec[-5000:]
+            else:
+                r['status'] = 'undecided'
+                r['reason'] = 'no verdict for harness (compile error / timeout?): ' + out[-600:]
+            results.append(r)
+    finally:
+        shutil.rmtree(scratch, ignore_errors=True)
+    return results
+
+
+if __name__ == '__main__':
+    import json
+    import sys
+    pid = sys.argv[1] if len(sys.argv) > 1 else None
+    repo = os.environ.get('VERIF_REPO', '/repo')
+    for r in run_units(harness_units(pid) if pid else load(), pid, repo):
+        print(json.dumps({k: v for k, v in r.items() if k not in ('text',)}, indent=1))
